@@ -92,12 +92,13 @@ def _resolve(cls, name, after=None):
 class Scope:
     """One function activation: names -> gval terms, local helpers, dict displays."""
 
-    def __init__(self, owner, path, names):
+    def __init__(self, owner, path, names, on_return=None):
         self.owner = owner          # class that defines the function (None for a module function)
         self.path = path
         self.names = dict(names)
         self.helpers = {}
         self.dicts = {}
+        self.on_return = on_return  # (nvars, gval term) -> program, for a method called for its value
 
 
 class Chain:
@@ -290,6 +291,13 @@ class Chain:
                 return self.raise_site(s, sc)
             if isinstance(s, ast.Return) and s.value is None:
                 return k(nvars)
+            if isinstance(s, ast.Return) and sc.on_return is not None:
+                # `return e` of a method inlined for its value: a new local holds e, the caller goes on with it
+                if isinstance(s.value, ast.IfExp) and not self._is_getor(s.value, sc):
+                    c, a, b = self.cond(s.value.test, sc), self.val(s.value.body, sc), self.val(s.value.orelse, sc)
+                else:
+                    c, a, b = "(CConst true)", self.val(s.value, sc), "(GConst PNone)"
+                return "(PLet %s %s %s\n %s)" % (c, a, b, sc.on_return(nvars + 1, "(GVar %d)" % nvars))
             if isinstance(s, ast.If):
                 c = self.cond(s.test, sc)
                 if c == "(CConst true)":
@@ -305,6 +313,16 @@ class Chain:
                     sc.dicts[name] = s.value
                     return go(nvars)
                 v = s.value
+                if self._is_method_call(v):
+                    # name = self.method(args): the method is inlined; each of its `return e` continues here
+                    def after(n, term, name=name):
+                        saved = dict(sc.names)
+                        sc.names[name] = term
+                        try:
+                            return self.stmts(rest, sc, n, k)
+                        finally:
+                            sc.names = saved
+                    return self.call_value(v, sc, nvars, after)
                 if isinstance(v, ast.IfExp) and not self._is_getor(v, sc):
                     c, a, b = self.cond(v.test, sc), self.val(v.body, sc), self.val(v.orelse, sc)
                 else:
@@ -323,6 +341,37 @@ class Chain:
             return "PUnknown"
         self.notes.append("statement %s" % ast.dump(s)[:80])
         return "PUnknown"
+
+    @staticmethod
+    def _is_method_call(v):
+        return (isinstance(v, ast.Call) and isinstance(v.func, ast.Attribute) and not v.keywords
+                and ((isinstance(v.func.value, ast.Name) and v.func.value.id == "self")
+                     or (isinstance(v.func.value, ast.Call) and isinstance(v.func.value.func, ast.Name)
+                         and v.func.value.func.id == "super" and not v.func.value.args))
+                and v.func.attr not in ("_validate", "_validate_static", "__set__"))
+
+    def call_value(self, c, sc, nvars, after):
+        f = c.func
+        is_super = isinstance(f.value, ast.Call)
+        if sc.owner is None and is_super:
+            raise Unsupported("super() outside a class")
+        owner = _resolve(self.cls, f.attr, after=sc.owner if is_super else None)
+        args = [self.val(a, sc) for a in c.args]
+        self.depth += 1
+        if self.depth > 12:
+            raise Unsupported("call depth")
+        try:
+            path, node = _fn_node(owner, f.attr)
+            params = [a.arg for a in node.args.args]
+            if params[:1] != ["self"] or node.args.vararg or node.args.kwarg or node.args.kwonlyargs \
+                    or len(params) - 1 != len(args):
+                raise Unsupported("signature of %s.%s" % (owner.__name__, f.attr))
+            callee = Scope(owner, path, dict(zip(params[1:], args)), on_return=after)
+            # falling off the end returns None
+            return self.stmts(node.body, callee, nvars,
+                              lambda n: "(PLet (CConst true) (GConst PNone) (GConst PNone)\n %s)" % after(n + 1, "(GVar %d)" % n))
+        finally:
+            self.depth -= 1
 
     def _is_getor(self, v, sc):
         try:
